@@ -237,7 +237,7 @@ var fieldNames = []string{"Name", "Age", "Phone", "Email", "OrderNo", "Amount", 
 var fieldTypes = []string{"string", "int32", "int64", "float64", "bool", "[]string", "*Inner", "map[string]string", "[]*Inner"}
 var docs = []string{"", "", "名字", "the amount, in cents", "状态: 1 正常 2 禁用"}
 var trailings = []string{"", "", "必填", "用户名 (required)", "see docs", "金额"}
-var injectVals = []string{"default=$100", "tpl=${name}x$$", "required|cost $5", "required|must be filled in", "required|用户名称不能为空请重新填写", "required|姓名必填,to=1~3", "le=64|说明文字过长，请缩短后重新提交，谢谢配合", "required", "required,to=1~10", "phone|手机号不对", "exist", "in=(1/2/3)", "le=30", "either=1", "omitempty", "-", "re='^a,b$'"}
+var injectVals = []string{"dir=C:\\tmp\\", "\\", "default=$100", "tpl=${name}x$$", "required|cost $5", "required|must be filled in", "required|用户名称不能为空请重新填写", "required|姓名必填,to=1~3", "le=64|说明文字过长，请缩短后重新提交，谢谢配合", "required", "required,to=1~10", "phone|手机号不对", "exist", "in=(1/2/3)", "le=30", "either=1", "omitempty", "-", "re='^a,b$'"}
 
 func genField(r *detsim.Rand, i int, annotate bool) Field {
 	name := fieldNames[i%len(fieldNames)]
@@ -257,12 +257,14 @@ func genField(r *detsim.Rand, i int, annotate bool) Field {
 		// values an escaping round trip would not leave alone: backslashes (proto2 defaults), a tab, an ideographic space, percent signs
 		f.Tags = append(f.Tags, []KV{{"protobuf_def", "bytes,9,opt,name=dir,def=C:\\\\tmp\\\\x"}, {"comment", "全角\u3000空格"}, {"fmt", "100%d of %s"}, {"path", "a\\b\tc"},
 			// ... and dollar signs: text a regexp replacement TEMPLATE would expand ($$ -> $, $name -> nothing) every time it passes through one
-			{"doc", "cost $$5"}, {"tpl", "${name}x$1y"}, {"price", "$100 or $$"}}[r.Intn(7)])
+			{"doc", "cost $$5"}, {"tpl", "${name}x$1y"}, {"price", "$100 or $$"},
+			// ... and a value whose LAST character is a backslash (a Windows directory, a separator): is the quote after it the end?
+			{"default", "C:\\data\\"}, {"sep", "\\"}}[r.Intn(9)])
 	}
 	if r.Chance(1, 12) {
 		// a literal that is not in the canonical one-blank form (hand-edited, another generator), or with an item whose value is empty:
 		// what the tool writes on the first run must already be what it writes on the second (seeded C07s spliced into the old bytes)
-		f.TagSep = []string{"  ", "\t", "^", "^  ", "   "}[r.Intn(5)]
+		f.TagSep = []string{"  ", "\t", "^", "^  ", "   ", "\f", " \v"}[r.Intn(7)]
 		if r.Chance(1, 3) {
 			f.Tags = append(f.Tags, KV{"bson", ""})
 		}
@@ -343,6 +345,26 @@ func GenHealthy(r *detsim.Rand, pkg string, annotated bool) *GoFile {
 	return g
 }
 
+// OddTagTexts: what may follow "@tag" in a comment without being a list of well-formed k:"v" items.
+var OddTagTexts = []string{
+	" default:\"C:\\tmp\\",                // an unterminated value whose last character is a backslash
+	" valid:\"required\" dir:\"C:\\tmp\\", // the same after a well-formed item
+	" valid:\"abc",                        // an unterminated value
+	" valid:\"required\"\fform:\"id\"",    // a form feed between two items
+	" valid:\"required\" \vform:\"id\"",   // a vertical tab at the start of a word
+	" \x01valid:\"required\"",             // a control character in front of the first item
+	" valid:\"required\"\x1b[0m",          // an escape sequence after the last item
+	" :\"x\" valid:\"required\"",          // a value without a key
+	" valid: \"required\"",                // a blank after the colon
+	" \"json\" valid",                     // a quoted word, a bare word
+	" a\\",                                // a bare word ending in a backslash
+	" valid:\"a\\\"b\" json:\"x\"",        // an escaped quote inside a value
+	" valid:\"required\" trailing\\",      // a well-formed item, then a word ending in a backslash
+	" valid:\"\" json:\"\"",               // empty values only
+	" valid:\"required\"\tjson:\"n\"\t",   // tabs between and after the items
+	" x-y:\"1\" a.b:\"2\" :\"\" \"",       // keys with - and ., an empty pair, a lone quote
+}
+
 // Unexpected valid-Go shapes (C19): the tool must not crash on them.
 var UnexpectedKinds = []string{
 	"no-tag-literal",             // a field with an @tag comment but no tag literal
@@ -370,6 +392,7 @@ var UnexpectedKinds = []string{
 	"two-tag-comments-junk",      // the same on a field whose existing tag literal is long and not in key:"value" form, as the last field of the file
 	"junk-tag-literal",           // one annotation on a field whose existing tag literal is not in key:"value" form
 	"line-directive",             // a //line directive naming an existing non-Go sibling, before the annotated fields
+	"odd-tag-text",               // @tag followed by text a hand-written tag scanner may trip over: unterminated values, a trailing backslash, control characters between items, escaped quotes, stray colons and quotes
 	"utf8-bom",                   // a byte order mark in front of the package clause (every offset is 3 bytes further than the characters suggest)
 	"no-final-newline",           // the file ends right after the last closing brace
 	"very-long-line",             // a 70..200 KB one-line constant in front of the annotated types
@@ -462,6 +485,13 @@ func GenUnexpected(r *detsim.Rand, pkg, kind string) *GoFile {
 		f := genField(r, len(s.Fields), false)
 		f.InjectRaw = " required, no quotes here"
 		s.Fields = append(s.Fields, f)
+	case "odd-tag-text":
+		// two such fields per file, each with an ordinary literal; the texts are legal inside a Go comment
+		for k := 0; k < 2; k++ {
+			f := genField(r, len(s.Fields), false)
+			f.InjectRaw = OddTagTexts[r.Intn(len(OddTagTexts))]
+			s.Fields = append(s.Fields, f)
+		}
 	case "bare-tag-eol":
 		f := genField(r, len(s.Fields), false)
 		f.InjectRaw = " "
